@@ -500,8 +500,8 @@ def evaluate(ctx, case, do_kspace=False):
                 # a USED object (already holding other / more blocks under other numbers, decoded once) reads the file:
                 # afterwards it must be indistinguishable from a fresh object that read the same file, and all the places
                 # that derive a total must agree with each other
-                reuse_fails = reused_object_read(ctx, case, fn, s2, dname)
-                fails += reuse_fails
+                if ctx.tier != 'quick' or ctx_rng(case).random() < 0.6:
+                    fails += reused_object_read(ctx, case, fn, s2, dname)
             except AssertionError as e:
                 fails.append(('write-asserts', {'exception': repr(e)}))
             except Exception as e:  # noqa: BLE001
@@ -523,6 +523,28 @@ def evaluate(ctx, case, do_kspace=False):
     return {'seq': seq, 'inputs': inputs, 'ids': ids, 'stored': stored, 'cd_in': cd_in, 'ds': ds, 'starts': starts, 'adc': adc,
             'rfx': rfx, 'rfr': rfr, 'wave': wave, 'wd': wd, 'cols': cols, 'total': total, 'scale': scale, 'failed': bool(fails),
             'ds_model': ds_model, 'tr': tr_results, 'evcount': [int(v) for v in evcount]}
+
+
+TABLES = []      # pending block-table comparisons (filled by reused_object_read, drained by compare_tables)
+
+
+def compare_tables(ctx):
+    items, TABLES[:] = list(TABLES), []
+    if not items or not ctx.model_available:
+        return
+    for t, out in zip(items, ctx.model([t['line'] for t in items])):
+        parts = [Toks(x) for x in out.split('|')]
+        mkeys = parts[0].list(parts[0].z)
+        n = parts[1].int()
+        mdurs = [(parts[1].z(), parts[1].q()) for _ in range(n)]
+        mdur = parts[2].opt(parts[2].q)
+        msum = parts[3].q()
+        if mkeys != t['keys'] or mdurs != t['durs'] or (mdur is None) != (t['duration'] is None) or \
+                (mdur is not None and not close(mdur, t['duration'], t['sum'])) or not close(msum, t['sum'], t['sum']):
+            ctx.mismatch('block_tables', t['case'], {
+                'model_keys': mkeys[:10], 'impl_keys': t['keys'][:10], 'model_n': len(mdurs), 'impl_n': len(t['durs']),
+                'model_totals': [None if mdur is None else float(mdur), float(msum)],
+                'impl_totals': [None if t['duration'] is None else float(t['duration']), float(t['sum'])]})
 
 
 def totals_agree(seq, label, fails):
@@ -558,7 +580,20 @@ def reused_object_read(ctx, case, fn, fresh, dname):
             else:
                 used.set_block(3 * k + 2 + (nfile if k % 2 else 0), *evs)
         warm_up(used, [r.choice(WARM), 'get_block'])
+        before = [(int(k), F(v)) for k, v in used.block_durations.items()]
         used.read(fn)
+    # input and implementation side of the block-table model comparison (run in batch by compare_model)
+    from common import ztok
+    filetab = [(int(k), F(v)) for k, v in fresh.block_durations.items()]
+    ops = ['S %s %s' % (ztok(k), qtok(v)) for k, v in before] + \
+          ['R %d %s' % (len(filetab), ' '.join('%s %s' % (ztok(k), qtok(v)) for k, v in filetab))]
+    try:
+        idur = F(used.duration()[0])
+    except Exception:  # noqa: BLE001
+        idur = None
+    TABLES.append({'line': 'timing.tables %d %s' % (len(ops), ' '.join(ops)), 'keys': [int(k) for k in used.block_events],
+                   'durs': [(int(k), F(v)) for k, v in used.block_durations.items()], 'duration': idur,
+                   'sum': F(sum(used.block_durations.values())), 'case': case})
     label = 'reused-object-read'
     if not totals_agree(used, label, fails):
         return fails
@@ -767,7 +802,7 @@ def corpus():
 
 
 def run(ctx):
-    n = {'quick': 450, 'thorough': 15000}[ctx.tier]
+    n = {'quick': 420, 'thorough': 15000}[ctx.tier]
     rng = ctx.rng('sequences')
     import itertools
     cases = itertools.chain(corpus(), (gen_case(rng) for _ in range(n)))     # lazily: time-boxed runs
@@ -786,9 +821,11 @@ def run(ctx):
             pending.append((case, it))
         if len(pending) >= 60:
             compare_model(ctx, pending)
+            compare_tables(ctx)
             pending = []
     if pending and ctx.model_available:
         compare_model(ctx, pending)
+    compare_tables(ctx)
 
 
 def replay(ctx, case):
@@ -797,5 +834,6 @@ def replay(ctx, case):
         return {'note': 'case does not build'}
     if ctx.model_available and not it['failed']:
         compare_model(ctx, [(case, it)])
+    compare_tables(ctx)
     return {'stored': {k: float(v) for k, v in it['stored'].items()}, 'total': float(it['total']),
             'starts': [float(v) for v in it['starts']]}
